@@ -1,4 +1,5 @@
 import Proofs.C02.Ecdsa
+import Proofs.C02.Misc
 /-!
 # C02 — ECDSA: signatures verify, verification is the SEC 1 equation, recovery, DER is canonical
 
@@ -49,6 +50,51 @@ theorem ecdsa_crack (L : Lawful o G) {c1 c2 q k r1 s1 id1 r2 s2 id2 : ℤ}
     (h2 : signRecoverable o c2 q k false = .ok (r2, s2, id2)) (hne : s1 ≠ s2) :
     crack o c1 r1 s1 c2 r2 s2 = .ok (q, k) :=
   crack_correct L hk hq h1 h2 hne
+
+/-- T2' (the public boolean): `dsa.verify_` validates the `Sig` first — ranges and "r is congruent to an
+    x-coordinate below p" (`Sig.assert_valid`, x-coordinate test `isX`) — and turns every refusal into
+    `False`.  Provided `isX` accepts the x-coordinate of every non-identity element, that screen never
+    changes the verdict: the API's boolean IS the SEC 1 predicate. -/
+theorem ecdsa_verify_api_is_sec1 (L : Lawful o G) (isX : ℤ → Bool)
+    (hX : ∀ P, L.abs P ≠ 0 → isX (o.x P) = true) (c : ℤ) (Q : α) (r s : ℤ) :
+    verifyFull o isX c Q r s = true ↔ SEC1 L c Q r s := by
+  rw [verifyFull_eq_verify L isX hX]; exact verify_iff_SEC1 L c Q r s
+
+/-- T4a (RFC 6979): for ANY HMAC, key, challenge and additional data, the derivation is a function of its
+    inputs (it is one: `Btc.Rfc6979.nonce`) and a nonce it returns lies in `1..n-1`. -/
+theorem rfc6979_nonce_in_range (H : Rfc6979.HashSpec) (n c q : ℤ) (extra : Bytes) (fuel : ℕ) (k : ℤ)
+    (h : Rfc6979.nonce H n c q extra fuel = some k) : 0 < k ∧ k < n :=
+  Rfc6979.nonce_range H n c q extra fuel k h
+
+/-- T4b (low-R grinding, over an arbitrary attempt oracle): `_grind_low_r` answers the first counter whose
+    signature has a low r — every earlier counter was tried and was high. -/
+theorem grind_returns_first_low {σ : Type} (attempt : ℕ → Option σ) (isLow : σ → Bool) (fuel m : ℕ) (sig : σ)
+    (h : Rfc6979.grindLowR attempt isLow true fuel = some (m, sig)) :
+    attempt m = some sig ∧ isLow sig = true ∧ ∀ j, j < m → ∃ sj, attempt j = some sj ∧ isLow sj = false := by
+  have := Rfc6979.grindFrom_first attempt isLow fuel 0 m sig (by simpa [Rfc6979.grindLowR] using h)
+  exact ⟨this.1, this.2.1, fun j hj => this.2.2.2 j (Nat.zero_le _) hj⟩
+
+/-- T8a (BMS): the recovery flag `bms.sign` writes is in 27..42 and `bms.assert_as_valid` reads back the
+    same key_id and compression from it, and accepts it for the address type it was written for.
+    (Flag formulas and guards are regenerated from bms.py: `Gen.Ecdsa.BMS_GUARDS`.) -/
+theorem bms_flag_reads_back :
+    ∀ kid ∈ List.range 4, ∀ comp ∈ [false, true], ∀ t ∈ Bms.allTypes, ∀ rf ∈ (Bms.flag kid comp t).toList,
+      Bms.inRange rf = true ∧ Bms.keyIdOf rf = kid ∧ Bms.compressedOf rf = comp ∧ Bms.accepts t rf = true :=
+  Bms.flag_reads_back
+
+/-- T8b (BMS): flag ↔ (address type, compression, key_id) is a bijection between the 16 admissible
+    triples and 27..42. -/
+theorem bms_flag_bijection :
+    (Bms.allTypes.flatMap fun t => [false, true].flatMap fun comp =>
+      (List.range 4).filterMap fun kid => Bms.flag kid comp t) = List.range' 27 16 :=
+  Bms.flag_bijection
+
+/-- T8c (BMS): the flags that may speak for each address type (31..34 speak for all three). -/
+theorem bms_accepts_table : ∀ rf ∈ List.range 70,
+    (Bms.accepts .p2pkh rf = decide (27 ≤ rf ∧ rf ≤ 34)) ∧
+    (Bms.accepts .p2sh rf = decide (31 ≤ rf ∧ rf ≤ 38)) ∧
+    (Bms.accepts .p2wpkh rf = decide ((31 ≤ rf ∧ rf ≤ 34) ∨ (39 ≤ rf ∧ rf ≤ 42))) :=
+  Bms.accepts_table
 
 -- non-vacuity: the hypotheses are met by concrete executions on a 13-point curve (p = 19, n = 13)
 def toy : EC.Curve := { p := 19, a := 0, b := 2, gx := 4, gy := 16, n := 13, h := 2 }
